@@ -98,7 +98,8 @@ def series_model_runs(chk, tier, mods):
         res = common.run_tlc("LabelSeries", series_cfg(sh[0], sh[1], codes, L, modes, name="_" + str(nmodes)), workers=WORKERS,
                              timeout=1500, coverage=(tier != "quick" and L <= 5))
         chk.add_tlc("LabelSeries %dx%d images %s, %d frames, %s" % (sh[0], sh[1], sorted(codes), L, modes), res,
-                    require_cover=(("Search", "Label", "Merge") if res.coverage and modes == free else ()))
+                    require_cover=())     # (Search / Label sit under one existential in Next: TLC's coverage does not name them; the exact
+                                        # behaviour count below and the harness's vacuity counters are the guard)
         if res.violated:
             handle_model_violation(chk, "LabelSeries", res)
         want = 3 * F ** L if modes == three else 2 * F * (3 * F) ** (L - 1)
